@@ -20,7 +20,7 @@ def optset(*pairs):
     return "{" + ", ".join(rec(g, v) for g, v in pairs) + "}"
 
 
-CORE_OPTS = [("null", "null"), ("null", "notnull"), ("default", "d1"), ("default", "d2"), ("pk", "pk"), ("unique", "u"), ("ref", "r1"), ("ref", "r3")]
+CORE_OPTS = [("null", "null"), ("null", "notnull"), ("default", "d1"), ("default", "d2"), ("pk", "pk"), ("unique", "u"), ("ref", "r1"), ("ref", "r3"), ("ref", "r8")]
 
 
 def consts(**kw):
@@ -64,7 +64,7 @@ def spec_tags(b):
     for a in b["hist"]:
         rid = a["o"]["v"] if a["a"] == "opt" and a["o"]["g"] == "ref" else (a["it"]["r"] if a["a"] == "item" and a["it"]["k"] in ("fk", "cfk") else None)
         if rid and rid != "none":
-            _, _, od, ou = T.REFS[rid]
+            _, _, od, ou = T.REFS[rid][:4]
             if any(x and " " in x for x in (od, ou)):
                 tags.add("twoword_inline" if a["a"] == "opt" else "twoword_table")
         eid = a["it"]["e"] if a["a"] == "item" else (a["o"]["v"] if a["a"] == "opt" and a["o"]["g"] == "check" else None)
@@ -87,6 +87,10 @@ def compare(V, behs, seeds, what, keep, extra_tables=False, ctor=None, run=None,
             nm = T.name_map(sd + h % 3)
             layout = layouts[h % len(layouts)]
             before, after = [], []
+            if layout == "noterm":
+                probe = T.render(b["hist"], sd, nm=nm, layout="oneline")
+                if probe.count("(") != probe.count(")"):
+                    layout = "multiline"      # a parenthesis inside a literal: without `;` the statement boundary is found by counting them
             if layout == "noterm":
                 before, after = ["t0"], ["t2", "t3"]          # the next CREATE is what ends a statement
             elif extra_tables:
